@@ -54,7 +54,11 @@ def _run_one(args):
         # e.g. a rewrite pass that does not terminate on this input: tallied, never a verdict
         r = dict(rejected=f"case timeout after {CASE_TIMEOUT_S}s (pass or exploration did not finish)")
     except BaseException as e:  # harness crash in worker: report, never a verdict
-        r = dict(error=f"{type(e).__name__}: {e}\n{traceback.format_exc()[-1500:]}")
+        if "CaseTimeout" in f"{type(e).__name__}: {e}\n{traceback.format_exc()}":
+            # the alarm went off inside a C call (z3 via ctypes): it surfaces wrapped in another exception
+            r = dict(rejected=f"case timeout after {CASE_TIMEOUT_S}s (pass or exploration did not finish)")
+        else:
+            r = dict(error=f"{type(e).__name__}: {e}\n{traceback.format_exc()[-1500:]}")
     r.setdefault("case", str(case)[:300])
     r["wall_s"] = round(time.time() - t0, 3)
     return r
